@@ -128,6 +128,20 @@ fn bounded_search_over_query_strings_forms_and_json() {
     assert!(JsonBody::<Form>::extract(&head("/", Some("text/plain")), &BufferedBody { bytes: "{}".into() }).is_err(), "wrong content type");
     assert!(JsonBody::<Form>::extract(&head("/", Some("application/json")), &BufferedBody { bytes: "{\"id\":1".into() }).is_err(), "truncated JSON");
     assert!(UrlEncodedBody::<Form>::extract(&head("/", Some("application/x-www-form-urlencoded")), &BufferedBody { bytes: vec![b'n', b'a', b'm', b'e', b'=', 0xFF, 0xFE].into() }).is_err(), "invalid UTF-8 in a form");
+    // invalid UTF-8 after percent-decoding in a query string / form: the statement demands the documented error. form_urlencoded
+    // decodes lossily (WHATWG URL), so pavex answers Ok with U+FFFD: reported as a NAMED deviation (see known_findings.json);
+    // anything else than {documented error, lossy U+FFFD value} is a failure.
+    #[derive(serde::Deserialize, Debug, PartialEq)] struct OnlyName { name: String }
+    match QueryParams::<OnlyName>::extract(&head("/p?name=Z%FCrich", None)) {
+        Err(_) => {}
+        Ok(q) if q.0.name == "Z\u{FFFD}rich" => println!("VERIF-DEVIATION id=query.invalid_utf8_is_decoded_lossily QueryParams::extract on `?name=Z%FCrich` (0xFC is not UTF-8) returned Ok(name = {:?}) instead of the documented extraction error", q.0.name),
+        Ok(q) => panic!("`?name=Z%FCrich`: neither an error nor the lossy decoding: {:?}", q.0),
+    }
+    match UrlEncodedBody::<OnlyName>::extract(&head("/", Some("application/x-www-form-urlencoded")), &BufferedBody { bytes: "name=Z%FCrich".into() }) {
+        Err(_) => {}
+        Ok(q) if q.0.name == "Z\u{FFFD}rich" => println!("VERIF-DEVIATION id=form.invalid_utf8_is_decoded_lossily UrlEncodedBody::extract on `name=Z%FCrich` returned Ok(name = {:?}) instead of the documented extraction error", q.0.name),
+        Ok(q) => panic!("form `name=Z%FCrich`: neither an error nor the lossy decoding: {:?}", q.0),
+    }
     // the content-type gate, both ways: what the documentation lists is accepted, everything else is the documented error
     let json_body = BufferedBody { bytes: serde_json::to_vec(&Form { id: 1, name: "n".into(), note: None, flag: true, big: 1 }).unwrap().into() };
     for ct in ["application/json", "application/json; charset=utf-8", "application/vnd.api+json", "application/problem+json", "APPLICATION/JSON", "application/ld+json;profile=x"] {
